@@ -475,6 +475,87 @@ for arts in ([[0]], [[0], [0]], [[0, 0]], [[0], [0, 1]]):
 if hits == 0:
     ck.inconclusive.append('R3 vacuous: no path used a stale read')
 
+# ---- R6: the chunker.  BlobWriter::write / finish are async without suspension points; their poll functions are executed with
+# store_chunk, hashing and the metadata writer stubbed (store_chunk records the chunk's bytes).
+ck.declare('R6_chunks_concatenate_to_the_written_bytes', 'write(d1), write(d2), finish with chunk size 1..3, |d1| in 0..4, |d2| in 0..3, bytes symbolic',
+           'the chunks handed to store_chunk, in order, concatenate to d1 ++ d2; every chunk but the last has exactly chunk_size bytes, the last 1..chunk_size; no empty chunk; total_size = |d1| + |d2|')
+
+
+def m_chunk_new(c):
+    data = c.args[0]
+    return Struct('Chunk', {F('Chunk', 'hash'): Str(z3.BitVec(c.st.fresh_name('h'), 64)), F('Chunk', 'data'): data, F('Chunk', 'size'): Int(U64(len(list(deref(c.st, data).items(c.st)) if isinstance(data, Ptr) else list(data.items(c.st)))), False)})
+
+
+def m_store_chunk_stub(c):
+    ch = deref(c.st, c.args[1]) if isinstance(c.args[1], Ptr) else c.args[1]
+    d = ch.fields[F('Chunk', 'data')]
+    c.st.env['stored'] = c.st.env.get('stored', []) + [[b.v for b in d.items(c.st)]]
+    return _ok(UNIT, 'Result<(), BlobError>')
+
+
+def poll(st, fname, fields):
+    body = Struct('{async fn body}', dict(fields, __state=0))
+    return run(st, fname, [Struct('Pin', {0: ref(body)}), ref(Opaque('Context'))])
+
+
+saved = {k: ex.extra_models.get(k) for k in ('BlobWriter::store_chunk', 'Chunk::new', 'StreamingHasher::update', 'StreamingHasher::finalize', 'build_metadata_tensor', 'BlobWriter::write_secondary_indexes')}
+ex.extra_models.update({'BlobWriter::store_chunk': m_store_chunk_stub, 'Chunk::new': m_chunk_new, 'StreamingHasher::update': lambda c: UNIT,
+                        'StreamingHasher::finalize': lambda c: Str(z3.BitVec(c.st.fresh_name('sum'), 64)),
+                        'build_metadata_tensor': lambda c: m_td_new(c), 'streaming::build_metadata_tensor': lambda c: m_td_new(c),
+                        'BlobWriter::write_secondary_indexes': lambda c: _ok(UNIT, 'Result<(), BlobError>')})
+chunked = 0
+try:
+    for cs_ in (1, 2, 3):
+        for L1 in range(0, 5):
+            for L2 in range(0, 4):
+                if T == 'quick' and (L1 + L2) % 2 == 1 and cs_ == 1:
+                    continue
+                st = ex.new_state()
+                st.roots['store'] = Struct('TensorStore', {'kv': Map('std::string::String', 'TensorData', [], [])})
+                d1 = [z3.BitVec(f'd1_{i}', 8) for i in range(L1)]
+                d2 = [z3.BitVec(f'd2_{i}', 8) for i in range(L2)]
+                w = Struct('BlobWriter', {F('BlobWriter', 'store'): st.roots['store'], F('BlobWriter', 'chunks'): Seq('std::string::String', []),
+                                          F('BlobWriter', 'buffer'): Seq('u8', []), F('BlobWriter', 'total_size'): Int(U64(0), False),
+                                          F('BlobWriter', 'chunker'): Struct('Chunker', {F('Chunker', 'chunk_size'): Int(U64(cs_), False)})}, lazy='W')
+                st.roots['W'] = w
+                states = [st]
+                for dn, d in (('d1', d1), ('d2', d2)):
+                    nxt = []
+                    for s_ in states:
+                        res = poll(s_, 'BlobWriter::write::{closure#0}', {0: ref(s_.roots['W']), 1: ref(Seq('u8', [Int(b, False) for b in d]))})
+                        ck.note_path_problem(res, f'write {dn} cs={cs_} L1={L1} L2={L2}')
+                        nxt += [r.st for r in res if r.status == 'return']
+                        for r in res:
+                            if r.status == 'panic':
+                                ck.require(ex, 'R6_chunks_concatenate_to_the_written_bytes', r.pc, None, z3.BoolVal(False), lambda m: {'blob_op': 'chunking', 'chunk_size': cs_, 'len1': L1, 'len2': L2}, lambda m, w_: 'write-panic')
+                    states = nxt
+                for s_ in states:
+                    res = poll(s_, 'BlobWriter::finish::{closure#0}', {0: s_.roots['W']})
+                    ck.note_path_problem(res, f'finish cs={cs_} L1={L1} L2={L2}')
+                    for r in res:
+                        wit = lambda m, cs_=cs_, L1=L1, L2=L2: {'blob_op': 'chunking', 'chunk_size': cs_, 'len1': L1, 'len2': L2}
+                        if r.status == 'panic':
+                            ck.require(ex, 'R6_chunks_concatenate_to_the_written_bytes', r.pc, None, z3.BoolVal(False), wit, lambda m, w_: 'finish-panic')
+                            continue
+                        if r.status != 'return':
+                            continue
+                        chunked += 1
+                        stored = r.st.env.get('stored', [])
+                        flat = [b for ch_ in stored for b in ch_]
+                        want = d1 + d2
+                        shape = len(flat) == len(want) and all(len(ch_) == cs_ for ch_ in stored[:-1]) and all(1 <= len(ch_) <= cs_ for ch_ in stored[-1:])
+                        eqs = z3.And([a == b for a, b in zip(flat, want)] + [z3.BoolVal(True)]) if shape else z3.BoolVal(False)
+                        ck.require(ex, 'R6_chunks_concatenate_to_the_written_bytes', r.pc, None, z3.And(z3.BoolVal(bool(shape)), eqs), wit, lambda m, w_: 'chunking')
+finally:
+    for k, v_ in saved.items():
+        if v_ is None:
+            ex.extra_models.pop(k, None)
+        else:
+            ex.extra_models[k] = v_
+    ex.extra_models.pop('streaming::build_metadata_tensor', None)
+if chunked == 0:
+    ck.inconclusive.append('R6 vacuous: finish never completed')
+
 for v in ck.violations:
     rep = Replay.call({'op': 'blob_step', **v['witness']})
     v['native'] = rep
